@@ -647,7 +647,13 @@ func (m *zzC12Model) run(trial int, order []int, rpos int, mode int, r2, r3 []bo
 		// every class that is complete at this point of the history already
 		// has the precedence list of the definitions in force
 		for x := 0; x < m.n; x++ {
-			if !zzC12Closed(inForce, defined, x) || (rpos <= k && 0 <= m.r && (r2[x] || r3[x])) {
+			if !defined[x] || (rpos <= k && 0 <= m.r && (r2[x] || r3[x])) {
+				continue
+			}
+			if !zzC12Closed(inForce, defined, x) {
+				// a superclass is still undefined: no instances yet
+				mi := zzC12Eval(scope, slip.List{slip.Symbol("make-instance"), zzC12Quote(m.names[x])})
+				vrt.Assert(mi.class == 1, "make-instance of a class with an undefined superclass signals a condition")
 				continue
 			}
 			m.checkPrecedence(scope, x, zzC12Prec(inForce, x))
